@@ -184,17 +184,39 @@ theorem promptLines_cases (o : ROpts) :
   unfold promptLines
   cases o.inputless <;> simp
 
+theorem inputRows_length (o : ROpts) (v : View) : (inputRows o v).length = promptLines o := by
+  unfold inputRows
+  rcases promptLines_cases o with ⟨hi, h⟩ | ⟨hi, h | h⟩ <;> simp [h, hi]
+
+theorem hdr0Rows_length (o : ROpts) : (hdr0Rows o).length = o.header0.length := by
+  unfold hdr0Rows; simp only; split <;> simp
+
 theorem logical_length (o : ROpts) (v : View) : (logical o v).length = promptLines o + o.header0.length := by
-  unfold logical
-  rcases promptLines_cases o with ⟨hi, h⟩ | ⟨hi, h | h⟩ <;> simp [h, hi] <;> split <;> simp <;> omega
+  unfold logical; rw [List.length_append, inputRows_length, hdr0Rows_length]
+
+/-- The fixed block has the same height with and without --header-first. -/
+theorem fixedBlock_length (o : ROpts) (v : View) :
+    (fixedBlock o v).length = promptLines o + o.header0.length + o.headerItems.length := by
+  unfold fixedBlock
+  simp only
+  split
+  · simp only [List.length_append, List.length_map, inputRows_length, hdr0Rows_length]; omega
+  · simp only [List.length_append, List.length_map, logical_length]
+
+theorem bottomBlock_length (o : ROpts) (v : View) :
+    (if o.headerFirst then hdr0Rows o ++ inputRows o v else logical o v).length = promptLines o + o.header0.length := by
+  split
+  · simp only [List.length_append, inputRows_length, hdr0Rows_length]; omega
+  · exact logical_length o v
 
 theorem fullRender_length (o : ROpts) (v : View) (hroom : promptLines o + o.header0.length + o.headerItems.length ≤ o.H) :
     (fullRender o v).length = o.H := by
-  have hl := logical_length o v
+  have hl := fixedBlock_length o v
+  have hb := bottomBlock_length o v
   have hr := listRows_length o v
   unfold fullRender
   unfold maxItems at hr
-  cases o.layout <;> simp [hl, hr] <;> omega
+  cases o.layout <;> simp [hl, hr, hb] <;> omega
 
 theorem fullRender_list_row (o : ROpts) (v : View) (k : Nat) (hk : k < maxItems o)
     (hroom : promptLines o + o.header0.length + o.headerItems.length ≤ o.H) :
@@ -202,17 +224,17 @@ theorem fullRender_list_row (o : ROpts) (v : View) (k : Nat) (hk : k < maxItems 
     (o.layout = .reverse → (fullRender o v)[fixed + k]? = (listRows o v)[k]?) ∧
     (o.layout = .default → (fullRender o v)[o.H - 1 - (fixed + k)]? = (listRows o v)[k]?) ∧
     (o.layout = .reverseList → (fullRender o v)[o.headerItems.length + k]? = (listRows o v)[k]?) := by
-  have hl := logical_length o v
+  have hl := fixedBlock_length o v
   have hr := listRows_length o v
   have hk' := hk
   unfold maxItems at hk'
   intro fixed
-  have hX : (logical o v ++ List.map (headerRow o) o.headerItems ++ listRows o v).length = o.H := by
+  have hX : (fixedBlock o v ++ listRows o v).length = o.H := by
     simp [hl, hr, maxItems]; omega
-  have hget : (logical o v ++ List.map (headerRow o) o.headerItems ++ listRows o v)[fixed + k]? = (listRows o v)[k]? := by
-    rw [List.getElem?_append_right (by simp [hl]; omega)]
+  have hget : (fixedBlock o v ++ listRows o v)[fixed + k]? = (listRows o v)[k]? := by
+    rw [List.getElem?_append_right (by rw [hl]; omega)]
     congr 1
-    simp [hl]; omega
+    rw [hl]; omega
   refine ⟨?_, ?_, ?_⟩
   · intro h
     unfold fullRender
